@@ -259,6 +259,57 @@ func (c *Check) noPathFrom(pg *PG, rule, construct, desc string, from LP, target
 	return false
 }
 
+// noPathFromInIter: as noPathFrom, for a condition about the loop element that may just as well
+// have been established earlier in the same iteration (a test hoisted into a local before the call):
+// only those from-edges count whose source is reachable from the start of an iteration of the loop
+// over x without passing `earlier`.
+func (c *Check) noPathFromInIter(pg *PG, rule, construct, desc string, x string, from LP, targets []*PState, unless LP, earlier LP) bool {
+	body := edgeTargets(pg, RangeNext(x))
+	reach := map[*PState]bool{}
+	queue := append([]*PState{}, body...)
+	for _, s := range body {
+		reach[s] = true
+	}
+	for len(queue) > 0 {
+		s := queue[0]
+		queue = queue[1:]
+		for _, e := range s.Out {
+			if reach[e.To] || e.has(earlier.F) || e.has(RangeNext(x).F) || e.has(RangeDone(x).F) {
+				continue
+			}
+			if pg.Infeasible != nil && e.has(pg.Infeasible.F) {
+				continue
+			}
+			reach[e.To] = true
+			queue = append(queue, e.To)
+		}
+	}
+	c.Searches++
+	var src []*PState
+	for _, s := range pg.States {
+		if !reach[s] {
+			continue
+		}
+		for _, e := range s.Out {
+			if e.has(from.F) {
+				src = append(src, e.To)
+			}
+		}
+	}
+	path, found := c.search(pg, src, inSet(targets), blockedBy(unless))
+	if !found {
+		c.add(rule, construct, desc, true, "")
+		return true
+	}
+	det := append([]string{"offending path (after " + from.Desc + ", " + earlier.Desc + " not established earlier in the iteration):"}, pg.describePath(path, 30)...)
+	where := ""
+	if len(path) > 0 {
+		where = pg.G.P.pos(path[len(path)-1].To.Node.Pos)
+	}
+	c.add(rule, construct, desc+": VIOLATED", false, where, det...)
+	return false
+}
+
 // perIteration records "every complete iteration of the range loop over x
 // passes lp". Members of lp that speak about the loop's own element or key
 // must be passed inside the iteration; members that do not (loop-invariant
